@@ -301,12 +301,29 @@ def d3(cx: Cx, ob: Ob) -> None:
                     if okf and given == needed and same_sig:
                         ob.site(f"{m.where} {m.qualname}", "delegates to the parent's from_curie")
                         continue
-                ob.violate(m.qualname, m.where, f"{ci.name}.from_curie does not parse through _split (first-separator rule)", detail="no-split")
-                continue
+                # an inline split of the curie at the first separator is the same parse
+                from ..rules import first_split
+
+                inline = [(x, first_split(x, ("param", "curie"), ("param", "sep"))) for x in subterms(t) if op(x) == "call"]
+                inline = [(x, v) for x, v in inline if v[0] is not None]
+                if inline and inline[0][1][0] == "ok":
+                    sc = [inline[0][0]]
+                    hi, ti = inline[0][1][1], inline[0][1][2]
+                    ob.site(f"{m.where} {m.qualname}", f"inline first-separator split `{show(sc[0])[:40]}`")
+                elif inline:
+                    verdict = inline[0][1][0]
+                    why = {"split-all": "str.split without maxsplit=1 cuts at every separator: a CURIE whose identifier contains the separator is rejected or mangled", "last-occurrence": "the string is cut at the LAST separator", "args": "the split is not of the curie at `sep`"}[verdict]
+                    ob.violate(m.qualname, m.where, f"{ci.name}.from_curie splits with `{show(inline[0][0])[:40]}`: {why}", witness="'a1:b2:c3' must give ('a1', 'b2:c3')", detail="no-split")
+                    continue
+                else:
+                    ob.violate(m.qualname, m.where, f"{ci.name}.from_curie does not parse through _split (first-separator rule)", detail="no-split")
+                    continue
+            else:
+                hi, ti = 0, 1
             c = sc[0]
-            if c[2][:1] != (("param", "curie"),) or dict(c[3]).get("sep") != ("param", "sep"):
+            if c[1] == ("func", f"{API}._split") and (c[2][:1] != (("param", "curie"),) or dict(c[3]).get("sep") != ("param", "sep")):
                 ob.violate(m.qualname, m.where, f"{ci.name}.from_curie calls `{show(c)[:50]}`, not _split(curie, sep=sep)", detail="split-args")
-            head, tail = ("item", c, ("const", 0)), ("item", c, ("const", 1))
+            head, tail = ("item", c, ("const", hi)), ("item", c, ("const", ti))
             if ci.name == "ReferenceTuple":
                 if not (op(t) == "call" and t[1] == ("param", "cls") and t[2] in ((head, tail), (("star", c),))):
                     ob.violate(m.qualname, m.where, "ReferenceTuple.from_curie does not build cls(prefix, identifier) in that order", detail="order")
